@@ -133,17 +133,23 @@ fn execute(sc: &Scenario) {
     let sent_total = std::sync::Arc::new(AtomicU64::new(0));
     let trace = std::sync::Arc::new(StdMutex::new(Vec::<u8>::new()));
     let mut handles = vec![];
-    for w in 0..sc.writers {
+    // writers == 11: ONE writer whose first parked wait is abandoned (the write future is dropped, e.g. by a timeout) and which
+    // goes on from another task, i.e. with a different waker: the waker registered LAST is the one that has to be woken
+    let handoff = sc.writers == 11;
+    let nthreads = if handoff { 1 } else { sc.writers };
+    for w in 0..nthreads {
         let (stream, sent_total, trace, want) = (stream.clone(), sent_total.clone(), trace.clone(), sc.want);
-        let multi = sc.writers > 1;
+        let multi = sc.writers == 2;
         handles.push(shuttle::thread::spawn(move || {
             let sig = std::sync::Arc::new(Signal { flag: shuttle::sync::Mutex::new(false), cv: shuttle::sync::Condvar::new(), wakes: AtomicU64::new(0) });
-            let waker = Waker::from(sig.clone());
-            let cx = Context::from_waker(&waker);
+            let mut sig = sig;
+            let mut waker = Waker::from(sig.clone());
+            let mut handed_off = !handoff;
             let mut sent = 0u32;
             let mut blocked = false;
             let mut closed = false;
             while sent < want {
+                let cx = Context::from_waker(&waker);
                 match stream.poll_obtain_write_permission(&cx) {
                     Poll::Ready(Some(())) => {
                         sent += 1;
@@ -161,6 +167,15 @@ fn execute(sc: &Scenario) {
                         if multi {
                             // two pollers share the stream's single waker slot: they do not wait (only the credit clause is checked)
                             break;
+                        }
+                        if !handed_off {
+                            // the parked write is abandoned; the next poll comes from another task (a fresh waker); wake-ups of the
+                            // old waker are of no use to it
+                            handed_off = true;
+                            sig = std::sync::Arc::new(Signal { flag: shuttle::sync::Mutex::new(false), cv: shuttle::sync::Condvar::new(), wakes: AtomicU64::new(0) });
+                            waker = Waker::from(sig.clone());
+                            trace.lock().unwrap().push(b'H');
+                            continue;
                         }
                         // sleep until woken: a lost wake-up leaves this thread blocked for ever (shuttle: deadlock)
                         sig.wait();
@@ -211,8 +226,8 @@ fn execute(sc: &Scenario) {
     assert_eq!(left, budget - total_sent, "C12-credit: credit left {left} != initial {} + grants {} - sent {total_sent} (scenario {})", sc.c0, sc.grants(), sc.encode());
     if !sc.closes() && !sc.shuts() {
         assert!(!any_closed, "C12-close: a writer saw the stream closed although nobody closed it");
-        if sc.writers == 1 {
-            assert_eq!(total_sent, sc.want * sc.writers, "C12-progress: writers finished early");
+        if sc.writers == 1 || sc.writers == 11 {
+            assert_eq!(total_sent, sc.want, "C12-progress: writers finished early");
         }
     }
     let t = trace.lock().unwrap().clone();
@@ -259,6 +274,10 @@ fn scenarios(thorough: bool) -> Vec<Scenario> {
                     // (a local shutdown alone wakes nobody: the writer ends by credit, or by the close that follows)
                     if (enough && !sc.closes()) || closes_last {
                         if sc.ops.iter().filter(|o| **o == Op::Close).count() <= 1 && sc.ops.iter().filter(|o| **o == Op::Shutdown).count() <= 1 {
+                            // the hand-off variant (see `execute`) for the scenarios that start without credit
+                            if sc.c0 == 0 && sc.want <= 2 {
+                                v.push(Scenario { writers: 11, ..sc.clone() });
+                            }
                             v.push(sc);
                         }
                     }
